@@ -283,7 +283,39 @@ def build(case):
     target.linear_solver = om.DirectSolver()
     p.setup()
     p.set_solver_print(-1)
+    p._omv_linesearch = ls          # for diagnose_scaled_bounds (classification only)
     return p, offs
+
+
+def diagnose_scaled_bounds(p, case, lower, upper, ref, ref0, declared):
+    """Classification only (never decides a verdict): True when the line search's scaled bound arrays are the
+    plain images (bound - ref0)/(ref - ref0) of the declared bounds also on entries whose scaling factor is
+    negative, i.e. scaled lower > scaled upper there because the two were not exchanged.  Any other state of
+    the arrays (correct, or wrong in a different way, or not inspectable) returns False so that a different
+    defect under negative scaling keeps the generic 'neg-scale(ref<ref0)' key."""
+    try:
+        ls = p._omv_linesearch
+        n = lower.size
+        L = np.full(n, -np.inf) if ls._lower_bounds is None else np.asarray(ls._lower_bounds, dtype=float)
+        U = np.full(n, np.inf) if ls._upper_bounds is None else np.asarray(ls._upper_bounds, dtype=float)
+        if L.shape != (n,) or U.shape != (n,):
+            return False
+        neg = (ref - ref0 < 0) & declared
+        with np.errstate(all='ignore'):
+            img_lo = (lower - ref0) / (ref - ref0)      # image of the declared lower bound (+inf if none)
+            img_hi = (upper - ref0) / (ref - ref0)      # image of the declared upper bound (-inf if none)
+
+        def same(a, b):
+            return (a == b) | (np.isfinite(a) & np.isfinite(b) & (np.abs(a - b) <= 1e-12 * (1 + np.abs(b))))
+        # unswapped: the array called 'lower' holds the image of the declared lower bound (or nothing, -inf)
+        # and the array called 'upper' the image of the declared upper bound (or nothing, +inf)
+        uns_lo = same(L, img_lo) | (np.isinf(img_lo) & (L == -np.inf))
+        uns_hi = same(U, img_hi) | (np.isinf(img_hi) & (U == np.inf))
+        right = same(L, img_hi) & same(U, img_lo)
+        wrong = neg & ~right
+        return bool(wrong.any() and np.all(uns_lo[wrong] & uns_hi[wrong]))
+    except Exception:
+        return False
 
 
 def run_one(case, acc):
@@ -308,7 +340,9 @@ def run_one(case, acc):
     scale_cls = 'neg' if negscale else ('pos' if anyscale else 'none')
     meth = case['lsopts']['bound_enforcement']
     alpha = float(case['lsopts'].get('alpha', 1.0))
-    keybase = '%s:%s:%s' % ('neg-scale(ref<ref0)' if negscale else 'pos-scale', case['ls'], meth)
+    # mechanism class first (refined after setup by diagnose_scaled_bounds), then the configuration cell
+    mech = 'neg-scale(ref<ref0)' if negscale else ('pos-scale' if anyscale else 'no-scale')
+    keybase = '%s:%s:%s' % (mech, case['ls'], meth)
     u0 = np.array(case['y0'], dtype=float)
     if np.any(u0 < lower) or np.any(u0 > upper) or np.any(lower >= upper):
         acc.skip('generator-start-outside-box')
@@ -323,6 +357,8 @@ def run_one(case, acc):
             for v in vars_:
                 yield 'c%d.%s' % (v['comp'], v['name']), offs[v['name']]
         p.final_setup()
+        if negscale and diagnose_scaled_bounds(p, case, lower, upper, ref, ref0, declared):
+            keybase = '%s:%s:%s' % ('scaled-bounds-not-swapped(ref<ref0)', case['ls'], meth)
         bad = False
         judged_any = False
         nontrivial = False
